@@ -2,6 +2,7 @@
    from the source (Gen/LookupGen.v, translator T15), are the model's lookup_prim / lookup_kid and verify_all. *)
 From Coq Require Import String.
 From Coq Require Import ZArith List Bool Lia.
+From Coq Require Import Strings.Byte.
 From Cose Require Import Lib.Base Lib.Cbor Lib.GoSem Lib.GenTypes Model.GoVal Model.Wire Model.Key Model.MsgLogic Model.Msg Model.HdrSem Gen.LookupGen.
 Import ListNotations.
 Open Scope Z_scope.
@@ -81,3 +82,113 @@ Proof.
     replace (go_range_from a b c f) with (match verify_all (v0 :: vr) w ext (s :: r) with Ok _ => @Ok (unit + unit) (inl tt) | Err => Err | Panic => Panic end) by (symmetry; exact H) end.
   destruct (verify_all (v0 :: vr) w ext (s :: r)) as [[]| |]; reflexivity.
 Qed.
+
+(* ---------------------------------------------------------------- SignMessage.WithSign: the loop over the signers (T16) *)
+(* what the loop appends to the wire struct: one entry per signer, its two buckets built from the signer's key alone,
+   the signature made over the Sig_structure of the encoded body bucket, the entry's own encoded protected bucket, the
+   external data and the payload; the first signer that fails ends the call *)
+Fixpoint sign_entries (ps : list sigprim) (pb : bytes) (ext payload : option bytes) : res (list sigout) :=
+  match ps with
+  | [] => Ok []
+  | p :: r =>
+      do tbs <- structure KSign (Some pb) (headers_bytes (signer_protected (sg_key p))) ext payload;
+      do sig <- sg_sign p tbs;
+      do rest <- sign_entries r pb ext payload;
+      Ok (mk_sigout (Some (signer_protected (sg_key p))) (Some (signer_unprotected (sg_key p))) sig :: rest)
+  end.
+
+Definition with_sign_body (ext : option bytes) (pb : bytes) (payload : option bytes) : Z -> sigprim -> list sigout -> res (ctl (list sigout) (list sigout)) :=
+  fun _ signer acc =>
+    let sig_Protected := (Some []) in
+    let sig_Unprotected := (Some []) in
+    let alg := (key_alg (sg_key signer)) in
+    do sig_Protected0 <- (if (negb (alg =? 0)) then do sig_Protected1 <- (oset sig_Protected 1 (VInt KInt alg)); Ok sig_Protected1 else Ok sig_Protected);
+    let kid_ := (kid (sg_key signer)) in
+    do sig_Unprotected0 <- (if (0 <? (go_len kid_)) then do sig_Unprotected1 <- (oset sig_Unprotected 4 (VBytes kid_)); Ok sig_Unprotected1 else Ok sig_Unprotected);
+    let protected := (headers_bytes (omap sig_Protected0)) in
+    do sig_toSign <- (structure KSign (Some pb) protected ext payload);
+    do sig_Signature <- (sg_sign signer sig_toSign);
+    let acc0 := (acc ++ [mk_sigout sig_Protected0 sig_Unprotected0 sig_Signature]) in
+    Ok (CNext acc0).
+
+Lemma with_sign_buckets k :
+  (if negb (key_alg k =? 0) then do h <- oset (Some []) 1 (VInt KInt (key_alg k)); Ok h else Ok (Some [])) = Ok (Some (signer_protected k))
+  /\ (if 0 <? go_len (kid k) then do h <- oset (Some []) 4 (VBytes (kid k)); Ok h else Ok (Some [])) = Ok (Some (signer_unprotected k)).
+Proof.
+  unfold signer_protected, signer_unprotected, oset, go_len. split.
+  - destruct (key_alg k =? 0); reflexivity.
+  - destruct (kid k) as [|b r]; [reflexivity|].
+    replace (0 <? Z.of_nat (length (b :: r))) with true by (symmetry; apply Z.ltb_lt; cbn [length]; lia). reflexivity.
+Qed.
+
+Lemma with_sign_loop ext pb payload : forall (ps : list sigprim) i acc,
+  go_range_from i ps acc (with_sign_body ext pb payload)
+  = match sign_entries ps pb ext payload with Ok l => Ok (inl (acc ++ l)) | Err => Err | Panic => Panic end.
+Proof.
+  induction ps as [|p r IH]; intros i acc; cbn [go_range_from sign_entries]; [rewrite app_nil_r; reflexivity|].
+  unfold with_sign_body at 1. destruct (with_sign_buckets (sg_key p)) as [Hp Hu].
+  rewrite Hp. cbn [bind]. rewrite Hu. cbn [bind omap].
+  destruct (structure KSign (Some pb) (headers_bytes (signer_protected (sg_key p))) ext payload) as [tbs| |]; cbn [bind]; [|reflexivity|reflexivity].
+  destruct (sg_sign p tbs) as [sg| |]; cbn [bind]; [|reflexivity|reflexivity].
+  rewrite IH. destruct (sign_entries r pb ext payload) as [l| |]; cbn [bind]; [|reflexivity|reflexivity].
+  rewrite <- app_assoc. reflexivity.
+Qed.
+
+Theorem gen_with_sign_loop ps ext pb payload : cose_SignMessage_WithSign_loop ps ext pb payload = sign_entries ps pb ext payload.
+Proof.
+  unfold cose_SignMessage_WithSign_loop, go_range.
+  pose proof (with_sign_loop ext pb payload ps 0 []) as H. unfold with_sign_body in H.
+  match goal with |- context [go_range_from ?a ?b ?c ?f] =>
+    replace (go_range_from a b c f) with (match sign_entries ps pb ext payload with Ok l => @Ok (list sigout + list sigout) (inl ([] ++ l)) | Err => Err | Panic => Panic end) by (symmetry; exact H) end.
+  destruct (sign_entries ps pb ext payload) as [l| |]; reflexivity.
+Qed.
+
+(* the entries are what the functional model of COSE_Sign production (sign_all, used by sign_produce and by the object
+   model) encodes: whenever the per-signer buckets are encodable (they hold one integer / one byte string) *)
+Definition enc_sigout (e : sigout) : option bytes :=
+  match headers_bytes (omap (so_prot e)), enc_cosemap (omap (so_unprot e)) with
+  | Some sp, Some su => Some (enc_array [enc_bytes (Some sp); su; enc_bytes (Some (so_sig e))])
+  | _, _ => None
+  end.
+
+Definition signer_buckets_encodable (p : sigprim) : Prop :=
+  headers_bytes (signer_protected (sg_key p)) <> None /\ enc_cosemap (signer_unprotected (sg_key p)) <> None.
+
+Theorem sign_all_is_entries pb ext payload : forall ps, Forall signer_buckets_encodable ps ->
+  sign_all ps pb ext payload
+  = do l <- sign_entries ps pb ext payload; match all_some (map enc_sigout l) with Some bs => Ok bs | None => Err end.
+Proof.
+  induction ps as [|p r IH]; intro F; cbn [sign_all sign_entries]; [reflexivity|].
+  inversion F as [|p' r' [Hp Hu] Fr]; subst.
+  destruct (headers_bytes (signer_protected (sg_key p))) as [sp|] eqn:Esp; [|exfalso; apply Hp; reflexivity].
+  destruct (enc_cosemap (signer_unprotected (sg_key p))) as [su|] eqn:Esu; [|exfalso; apply Hu; reflexivity].
+  destruct (structure KSign (Some pb) (Some sp) ext payload) as [tbs| |]; cbn [bind]; [|reflexivity|reflexivity].
+  destruct (sg_sign p tbs) as [sg| |]; cbn [bind]; [|reflexivity|reflexivity].
+  rewrite (IH Fr). destruct (sign_entries r pb ext payload) as [l| |]; cbn [bind]; [|reflexivity|reflexivity].
+  cbn [map all_some].
+  assert (E : enc_sigout (mk_sigout (Some (signer_protected (sg_key p))) (Some (signer_unprotected (sg_key p))) sg)
+              = Some (enc_array [enc_bytes (Some sp); su; enc_bytes (Some sg)])).
+  { unfold enc_sigout. cbn [so_prot so_unprot so_sig omap]. rewrite Esp, Esu. reflexivity. }
+  rewrite E. destruct (all_some (map enc_sigout l)); reflexivity.
+Qed.
+
+Theorem gen_with_sign_loop_is_sign_all ps ext pb payload : Forall signer_buckets_encodable ps ->
+  sign_all ps pb ext payload
+  = do l <- cose_SignMessage_WithSign_loop ps ext pb payload; match all_some (map enc_sigout l) with Some bs => Ok bs | None => Err end.
+Proof. intro F. rewrite gen_with_sign_loop. apply sign_all_is_entries, F. Qed.
+
+(* the statements that follow the loop install the wire struct and return: nothing else happens after the last signature *)
+Lemma with_sign_after_loop : cose_SignMessage_WithSign_after_loop = ["m.mm = mm"%string; "return nil"%string].
+Proof. reflexivity. Qed.
+
+
+(* non-vacuity: a two-signer list, one key with alg and kid, one bare, evaluated *)
+Definition ws_p1 : sigprim := {| sg_key := [(ilabel 1, VInt KInt 2); (ilabel 2, VBytes [x01; x02]); (ilabel 3, VInt KInt (-7))]; sg_sign := fun d => Ok (firstn 4 d); sg_verify := fun _ _ => true |}.
+Definition ws_p2 : sigprim := {| sg_key := [(ilabel 1, VInt KInt 2)]; sg_sign := fun d => Ok (firstn 2 d); sg_verify := fun _ _ => true |}.
+Example with_sign_loop_example :
+  cose_SignMessage_WithSign_loop [ws_p1; ws_p2] None [] (Some [x61])
+  = Ok [mk_sigout (Some [(ilabel 1, VInt KInt (-7))]) (Some [(ilabel 4, VBytes [x01; x02])]) [x85; x69; x53; x69];
+        mk_sigout (Some []) (Some []) [x85; x69]].
+Proof. vm_compute. reflexivity. Qed.
+Example with_sign_loop_example_encodable : Forall signer_buckets_encodable [ws_p1; ws_p2].
+Proof. repeat (apply Forall_cons || apply Forall_nil); (split; vm_compute; discriminate). Qed.
